@@ -257,6 +257,48 @@ def basic_random_scripts(rng, n, maxlen, late):
     return out
 
 
+EXT_BODY = r'''
+JTable == << <<IntV(1), StrV("a")>>, <<IntV(1), StrV("b")>>, <<NullV, StrV("c")>>, <<IntV(2), StrV("a")>> >>
+ExtCfgs == {[op |-> "orderby", keys |-> <<3>>, dirs |-> <<1>>, limit |-> -1], [op |-> "orderby", keys |-> <<3, 2>>, dirs |-> <<-1, 1>>, limit |-> 2],
+            [op |-> "orderby", keys |-> <<>>, dirs |-> <<>>, limit |-> 1], [op |-> "orderby", keys |-> <<2>>, dirs |-> <<-1>>, limit |-> 3],
+            [op |-> "limit", n |-> 0], [op |-> "limit", n |-> 1], [op |-> "limit", n |-> 2],
+            [op |-> "lookup", col |-> 3, jcol |-> 1, table |-> JTable],
+            [op |-> "unnest", col |-> 3]}
+ExtUniverse(c) == IF c.op = "unnest"
+                  THEN {Rec(<<TimeV(1), StrV("a"), ListV(l)>>, r, t) : l \in {<<>>, <<IntV(1)>>, <<IntV(1), IntV(1)>>, <<IntV(2), NullV>>}, r \in BOOLEAN, t \in 0..2} \cup {Wm(1), Wm(2)}
+                  ELSE {Rec(<<TimeV(1), StrV(nm), v>>, r, t) : nm \in {"a", "b"}, v \in {IntV(1), IntV(2), NullV}, r \in BOOLEAN, t \in 0..2} \cup {Wm(1), Wm(2)}
+'''
+JTABLE = [[V_int(1), V_str("a")], [V_int(1), V_str("b")], [NULL, V_str("c")], [V_int(2), V_str("a")]]
+
+
+def ext_random_scripts(rng, n, maxlen, late):
+    out = []
+    rows = [[V_time(1), V_str(nm), v] for nm in ("a", "b", "c") for v in (V_int(1), V_int(2), V_int(3), NULL)]
+    lrows = [[V_time(1), V_str(nm), {"t": "list", "l": l}] for nm in ("a", "b") for l in ([], [V_int(1)], [V_int(1), V_int(1)], [V_int(2), NULL], [V_int(3), V_int(1), V_int(2)])]
+    for _ in range(n):
+        kind = rng.choice(("orderby", "orderby", "limit", "lookup", "unnest"))
+        if kind == "orderby":
+            keys = rng.choice([[3], [3, 2], [], [2], [2, 3], [1, 3]])
+            cfg = {"op": "orderby", "keys": keys, "dirs": [rng.choice([1, -1]) for _ in keys], "limit": rng.choice([-1, -1, 1, 2, 3, 5])}
+        elif kind == "limit":
+            cfg = {"op": "limit", "n": rng.choice([0, 1, 2, 3, 7])}
+        elif kind == "lookup":
+            cfg = {"op": "lookup", "col": 3, "jcol": 1, "table": JTABLE}
+        else:
+            cfg = {"op": "unnest", "col": 3}
+        out.append({"cfg": cfg, "in": random_script(rng, lrows if kind == "unnest" else rows, maxlen, [0, 1, 2, 3, 4], max_wm=4, late=late)})
+    return out
+
+
+def run_ext(ctx, prop):
+    """order by (OrderSensitiveTransform), limit, lookup join and unnest: Layer I step functions model-checked against Layer P, scripts replayed, traces validated"""
+    thorough = ctx.tier == "thorough"
+    rng = random.Random(ctx.seed * 7919 + 11)
+    late = prop != "C18"
+    randoms = ext_random_scripts(rng, 1500 if thorough else 300, 50 if thorough else 25, late)
+    run_ops(ctx, prop, "OpMC_ext", EXT_BODY, "ExtCfgs", "ExtUniverse", 4 if thorough else 3, randoms, sig_basic, [prop], sample=0 if thorough else 6000)
+
+
 def sig_basic(f):
     cfg = f["header"]["cfg"]
     return {"site": "nodes." + cfg["op"], "why": f["why"].split(":")[0]}
